@@ -169,13 +169,48 @@ def sizeFields : List (Field × GoVal) → Nat
   | (_, v) :: fs => v.size + sizeFields fs
 end
 
+/-- Go's "comparable" for the static types the model distinguishes (what the compiler demands of a
+    map key type).  A struct type is known by name only (its field list lives in the values): the
+    harness asks `reflect.Type.Comparable()` and marks the names of the struct types that are NOT
+    comparable with the suffix `#nc` (`harness/wire.go: typeName`). -/
+def GoType.comparable : GoType → Bool
+  | .basic k _ =>
+    k == .bool || k.isInt || k.isUint || k == .float32 || k == .float64 ||
+      k == .complex64 || k == .complex128 || k == .string
+  | .ptr _ => true
+  | .slice .. => false
+  | .array _ e => e.comparable
+  | .map .. => false
+  | .struct n => !(n.endsWith "#nc")
+  | .iface => true
+  | .other k _ => k == .chan || k == .unsafePointer || k == .interface   -- not func
+
+/-- `reflect.Zero(t)`.  The zero value of a struct type cannot be built from its name alone
+    (placeholder without fields); no definition of the model ever asks for it: a string is never
+    decoded into a struct, so no array of structs is ever built. -/
+def zeroVal : GoType → GoVal
+  | .basic k name =>
+    if k == .bool then .bool name false
+    else if k.isInt then .int k name 0
+    else if k.isUint then .uint k name 0
+    else if k == .float32 || k == .float64 then .float k name 0
+    else if k == .complex64 || k == .complex128 then .complex k name
+    else .str name []
+  | .ptr e => .ptr e none
+  | .slice n e => .slice n e true []
+  | .array n e => .array e (List.replicate n (zeroVal e))
+  | .map n k v => .map n k v true []
+  | .struct n => .struct n []
+  | .iface => .iface none
+  | .other k n => .other k n true
+
 /-- the dynamic value of an interface-typed key (`k.Interface()`); other keys unchanged -/
 def unboxKey : GoVal → GoVal
   | .iface (some v) => v
   | v => v
 
-/-- Equality of map keys as Go's `==` on the boxed keys decides it (`k.Interface() ==
-    key.Interface()`): same dynamic type and equal value; floats by IEEE `==`. -/
+/-- Equality of scalar map keys (the universe before arrays / pointers were admitted as keys);
+    `keyEqV` agrees with it on scalars (`keyEqV_scalar`, Proofs/PermRel.lean). -/
 def keyEqScalar (feq : Nat → Nat → Nat → Bool) : GoVal → GoVal → Bool
   | .bool n a, .bool m b => n == m && a == b
   | .int k n a, .int k' m b => k == k' && n == m && a == b
@@ -184,7 +219,34 @@ def keyEqScalar (feq : Nat → Nat → Nat → Bool) : GoVal → GoVal → Bool
   | .str n a, .str m b => n == m && a == b
   | _, _ => false
 
+mutual
+/-- Go's `==` on two values of comparable type as far as a map lookup can observe it: same
+    dynamic type and equal value; floats by IEEE `==`; arrays element by element; interface slots
+    (array elements of interface type) by their dynamic values, nil equals nil; pointers: the nil
+    pointer equals the nil pointer of the same type, and since pointer identity is not represented
+    and every pointer a lookup compares was allocated by the lookup itself, two non-nil pointers are
+    never equal.  Structs, complex numbers and channels never take part in a comparison whose
+    one side was built from a path part (such a part does not convert): `false`. -/
+def keyEqV (feq : Nat → Nat → Nat → Bool) : GoVal → GoVal → Bool
+  | .bool n a, .bool m b => n == m && a == b
+  | .int k n a, .int k' m b => k == k' && n == m && a == b
+  | .uint k n a, .uint k' m b => k == k' && n == m && a == b
+  | .float k n a, .float k' m b => k == k' && n == m && feq k.bits a b
+  | .str n a, .str m b => n == m && a == b
+  | .iface none, .iface none => true
+  | .iface (some a), .iface (some b) => keyEqV feq a b
+  | .ptr e none, .ptr e' none => e == e'
+  | .array e xs, .array e' ys => e == e' && keyEqL feq xs ys
+  | _, _ => false
+def keyEqL (feq : Nat → Nat → Nat → Bool) : List GoVal → List GoVal → Bool
+  | [], [] => true
+  | x :: xs, y :: ys => keyEqV feq x y && keyEqL feq xs ys
+  | _, _ => false
+end
+
+/-- Equality of map keys as Go's `==` on the boxed keys decides it (`k.Interface() ==
+    key.Interface()`). -/
 def keyEq (feq : Nat → Nat → Nat → Bool) (a b : GoVal) : Bool :=
-  keyEqScalar feq (unboxKey a) (unboxKey b)
+  keyEqV feq (unboxKey a) (unboxKey b)
 
 end Bexpr.Go
